@@ -206,7 +206,9 @@ def check_graph(name, before, tier, which_passes):
                 ok, info = replay(before, after, r.get("tens") or [], r.get("models"))
                 if ok:
                     out["decided"] += 1
-                    out["violations"].append({"key": f"{name}|pass={which}", "what": f"{r['reason']}; {info.get('why','')}", "payload": {"graph": name, "pass": which, "binding": b, "replay": info, "before": onnx.printer.to_text(before)[:3000], "after": onnx.printer.to_text(after)[:3000]}})
+                    culprit = attribute_pass(before, b, opts) if which == "all" else _pass_names()[which]
+                    cls = failure_class(r["reason"], info)
+                    out["violations"].append({"key": f"{graph_key(name)}|pass={culprit}|{cls}", "what": f"{name}: {r['reason']}; {info.get('why','')}", "payload": {"graph": name, "pass": culprit, "binding": b, "replay": info, "before": onnx.printer.to_text(before)[:3000], "after": onnx.printer.to_text(after)[:3000]}})
                     break
                 else:
                     out["inconclusive"].append(f"{which}: candidate not reproduced ({r['reason']}; {info.get('why','')})")
@@ -215,6 +217,60 @@ def check_graph(name, before, tier, which_passes):
             else:
                 out["inconclusive"].append(f"{which}: {r['status']} {r.get('reason','')}"[:160])
     return out
+
+
+def failure_class(reason, info):
+    t = (reason or "") + " " + (info.get("why") or "")
+    if "invalid" in t or "fails in ORT" in t:
+        return "invalid_model"
+    if "shape" in t:
+        return "shape"
+    if "element type" in t or "dtype" in t:
+        return "dtype"
+    if "count" in t:
+        return "output_count"
+    return "values"
+
+
+def graph_key(name):
+    """identity of the failing pattern without the parameters that do not matter for the defect
+    (which permutation, which elementwise operators)"""
+    parts = name.split("/")
+    if len(parts) >= 7 and parts[1] == "t_chain_t":
+        second = parts[2].split("-")[1]
+        chain = "nochain" if parts[3] == "none" else "chain"
+        return "/".join([parts[0], parts[1], second, chain, parts[4], parts[5], parts[6]])
+    if len(parts) >= 5 and parts[1] == "add_forest":
+        return "/".join([parts[0], parts[1], parts[2].split("-")[1]] + parts[3:])
+    if len(parts) >= 6 and parts[1] == "t_reduce_t":
+        return "/".join([parts[0], parts[1], parts[2], "k" + parts[5][-1] if parts[5].startswith("k") else parts[5], parts[-1]])
+    if len(parts) >= 5 and parts[1] == "r_chain_r":
+        return "/".join([parts[0], parts[1], parts[2], "nochain" if parts[3] == "none" else "chain"] + parts[4:])
+    return name
+
+
+def attribute_pass(before, binding, opts):
+    """apply the real passes cumulatively in pipeline order; the first pass after which the model
+    differs from `before` (by evaluator or ORT) is the culprit"""
+    import jax2onnx.converter.ir_optimizations as iro
+
+    ir = _ir()
+    model = ir.serde.deserialize_model(copy.deepcopy(before))
+    for p in iro._OPTIMIZER_PASSES:
+        try:
+            iro._run_top_level_optimizer_pass(p, model)
+            cur = ir.serde.serialize_model(model)
+        except Exception:
+            return p.name + "(raised)"
+        try:
+            r = compare_models(before, cur, binding, opts)
+        except Exception:
+            continue
+        if r["status"] == "candidate":
+            ok, _ = replay(before, cur, r.get("tens") or [], r.get("models"))
+            if ok:
+                return p.name
+    return "pipeline"
 
 
 def _pass_names():
